@@ -847,6 +847,13 @@ def s_sqrt(a):
     except Exception:
         pass
     p = current()
+    # sqrt(1 - cos^2) = |sin|, sqrt(1 - sin^2) = |cos| for the path's own trig atoms
+    if e.count_ops() < 12 and e.free_symbols:
+        for _k, (c_, s_, _b) in p.trig_atoms.items():
+            if e.free_symbols == {c_} and sp.expand(e - (1 - c_ ** 2)) == 0:
+                return s_abs(Sym(s_))
+            if e.free_symbols == {s_} and sp.expand(e - (1 - s_ ** 2)) == 0:
+                return s_abs(Sym(c_))
     big = e.count_ops() > 120 or sum(1 for t_ in sp.Add.make_args(e) if sp.fraction(t_)[1] != 1) > 3
     key = sp.srepr(e) if big else sp.srepr(sp.together(e))
     if key in p.sqrt_atoms:
@@ -1072,6 +1079,26 @@ def s_exp(a):
         p.fun_atoms[key] = (_new_atom(p, 'E', positive=True), 'exp', (e if not flip else -e,))
     at = p.fun_atoms[key][0]
     return Sym(1 / at) if flip else Sym(at)
+
+
+def s_arccos(a):
+    """arccos of a value that *is* the cosine atom of an angle whose sine is known to be >= 0 on this path: the principal
+    value A in [0, pi] has cos A = c and sin A = sqrt(1 - c^2) = s, so a new angle symbol sharing the atoms (c, s) is returned
+    (integer multiples of it then reduce to polynomials in c, s).  Anything else stays an uninterpreted function."""
+    a = lift(a)
+    if a.kind == FIN and active() and a.e.is_Symbol:
+        p = current()
+        for _k, (c_, s_, _b) in list(p.trig_atoms.items()):
+            if a.e == c_:
+                key_, poly_, flip_ = canon(s_)
+                ss = p.sign_set(key_, poly_)
+                if flip_:
+                    ss = frozenset(_FLIP[x] for x in ss)
+                if NEG not in ss:
+                    A = _new_atom(p, 'acos')
+                    p.trig_atoms[sp.srepr(A)] = (c_, s_, A)
+                    return Sym(A)
+    return s_fun('arccos', a)
 
 
 def s_fun(name, *args):
